@@ -142,6 +142,7 @@ class Style:
     one_line_empty: bool = True
     pre_blank: int = 0  # blank lines at the very top of the file
     trailing_newline: bool = True
+    trailing_comments: bool = False  # `// t` after every field / member / constant / alias on the same line
 
 
 DEFAULT_STYLE = Style()
@@ -226,6 +227,9 @@ class Printer:
         return ""
 
     def emit(self, depth: int, text: str) -> int:
+        if self.style.trailing_comments and text and not text.startswith("//") and not text.rstrip().endswith(("{", "}")) \
+                and not text.startswith(("proto ", "import ")):
+            text = text + " // t%d" % len(self.lines)
         self.lines.append(self.style.indent * depth + text)
         return len(self.lines)
 
